@@ -218,6 +218,8 @@ def verify_functions(prop, rep, extra_requires=None, only=None):
                 rep.broken.append("zero obligations generated for %s" % key)
             seg.update(paths=npaths, obligations=len(vcs), gen_seconds=round(time.time() - t0, 2), contract=key)
             seg["dropped"] = sorted(set(E.dropped))
+            if E.auto_inlined:
+                seg["auto_inlined"] = sorted(E.auto_inlined)   # repository callees without contract, executed in place
             if not only:
                 rep.functions.append(seg)
             rep.trusted |= E.trusted_used
